@@ -270,7 +270,11 @@ def run_check(prop, tier, cfg):
             log(f"INCONCLUSIVE property={prop}: overlay failed: {e}")
             return 2
         if cfg.get("pre"):
-            cfg["pre"](ov, tier, seed)
+            try:
+                cfg["pre"](ov, tier, seed)
+            except overlay.OverlayError as e:
+                log(f"INCONCLUSIVE property={prop}: {e}")
+                return 2
         json_out = os.path.join(ov, "kani_results.json")
         log_path = os.path.join(ov, "kani.log")
         extra = list(cfg.get("extra", []))
